@@ -5,6 +5,7 @@ import (
 	"fmt"
 	"hash/fnv"
 	"net/url"
+	"os"
 	"strings"
 	"sync"
 	"time"
@@ -25,9 +26,10 @@ func init() {
 }
 
 func runOverflow(c *h.Ctx, r *h.Report) {
-	r.Rule = "histories around the buffer capacity (1000) through the real handlers under synctest: a subscriber whose writer is stalled while capacity-1 … capacity+3 matching updates are published (overflow during live delivery at exactly capacity+1 pending: 1 in flight + capacity buffered), then released; other subscribers reading normally; on Bolt, replays from 'earliest' and from a stored id larger / smaller than the buffer (overflow during history replay); subscriptions API listing afterwards. Full observable state compared with the model after every op; the property's oracle (a subscriber that missed an update is ended and no longer listed, the others got everything) evaluated on the implementation alone. Non-trivial = case in which some buffer overflowed; distinct by content."
+	r.Rule = "histories around the buffer capacity (1000) through the real handlers under synctest: a subscriber whose writer is stalled while capacity-1 … capacity+3 matching updates are published (overflow during live delivery at exactly capacity+1 pending: 1 in flight + capacity buffered), then released; other subscribers reading normally; on Bolt, replays from 'earliest' and from a stored id larger / smaller than the buffer (overflow during history replay); subscriptions API listing afterwards. A scale stage registers 1023 / 1025 / 2100+ subscribers on each transport (some removed again): all listed, an update handed to exactly the connected ones, Close ends every one (implementation-only oracles). Full observable state compared with the model after every op; the property's oracle (a subscriber that missed an update is ended and no longer listed, the others got everything) evaluated on the implementation alone. Non-trivial = case in which some buffer overflowed; distinct by content."
 	o := gen.NewOracle()
 	g := installCountingUUID()
+	manySubscribers(c, r)
 	n := c.Scale(20, 400)
 	for i := 0; i < n; i++ {
 		cs := genOverflowCase(c.Rand.Fork(), 1000)
@@ -141,6 +143,9 @@ func genHubCase(rr *h.Rand, o *gen.Oracle, focus string) hubCase {
 	next := 0
 	var live []int
 	var ids []string
+	// a connection whose SetWriteDeadline fails and one whose write fails are not mixed in one history: if both died
+	// of the same publication the order of their end events would be the runtime's
+	hasDL, hasFail := false, false
 	if focus == "" && rr.Chance(1, 6) {
 		// two template selectors whose compiled-template cache keys collide under the cache's 32-bit shard hash:
 		// the subscriber is authorised for one user's resources and subscribes to a catch-all template; a private
@@ -221,7 +226,12 @@ func genHubCase(rr *h.Rand, o *gen.Oracle, focus string) hubCase {
 				op.Claims = claimsJSON("subscribe", cl, "")
 			}
 			op.Carrier = h.Pick(rr, []string{"header", "query", "cookie"})
-			if rr.Chance(1, 2) {
+			if !hasFail && op.Claims == "" && rr.Chance(1, 6) {
+				hasDL = true
+				// the connection is torn down under the handler: every SetWriteDeadline fails, from the very first
+				// one (right after registration); no replay, so that its first write attempt comes with a publication
+				op.DeadlineErr = true
+			} else if rr.Chance(1, 2) {
 				var id string
 				switch rr.Intn(5) {
 				case 0:
@@ -258,6 +268,10 @@ func genHubCase(rr *h.Rand, o *gen.Oracle, focus string) hubCase {
 			cs.Ops = append(cs.Ops, hubOp{Op: "disc", Label: live[j]})
 			live = append(live[:j], live[j+1:]...)
 		case x < 80:
+			if hasDL {
+				continue
+			}
+			hasFail = true
 			cs.Ops = append(cs.Ops, hubOp{Op: "failnext", Label: h.Pick(rr, live)})
 		case x < 84:
 			cs.Ops = append(cs.Ops, hubOp{Op: "stall", Label: h.Pick(rr, live)})
@@ -337,7 +351,8 @@ func runHubGen(c *h.Ctx, r *h.Report, focus string) {
 			cs.Cfg.Subscriptions = true
 			cs.ExpectAll = false
 			watch := claimsJSON("subscribe", []string{"*"}, "w")
-			cs.Ops = append([]hubOp{{Op: "sub", Label: 1001, Topics: []string{"/.well-known/mercure/subscriptions/{topic}/{subscriber}"}, Claims: watch}}, cs.Ops...)
+			cs.Ops = append([]hubOp{{Op: "sub", Label: 1000, Topics: []string{"*"}, Claims: watch},
+				{Op: "sub", Label: 1001, Topics: []string{"/.well-known/mercure/subscriptions/{topic}/{subscriber}"}, Claims: watch}}, cs.Ops...)
 			runHubCase(c, r, o, cs, g)
 			r.Count("case:tracked-connection-ended-by-overflow")
 		}
@@ -434,6 +449,73 @@ func runHub(c *h.Ctx, r *h.Report) {
 // (no reference to the Lean model): used to decide whether a disagreement is a defect of /repo.
 // genOverflowCase: buffers around the capacity — a stalled subscriber under live load, and replays
 // larger than the buffer.
+// manySubscribers: "for all numbers of connected subscribers" beyond the sizes the histories reach — a few thousand
+// subscribers registered on each transport (some removed again, some already disconnected), every one of them
+// listed, an update handed to every one, and Close ends every one. Transport level, implementation-only oracles.
+func manySubscribers(c *h.Ctx, r *h.Report) {
+	tss, _ := mercure.NewTopicSelectorStoreLRU(0, 0)
+	for _, kind := range []string{"local", "bolt"} {
+		for _, n := range []int{1023, 1025, 2100 + c.Rand.Intn(300)} {
+			dir := scratchDir()
+			var tr mercure.Transport
+			if kind == "bolt" {
+				t, err := mercure.NewBoltTransport(zapNop(), dir+"/h.db", "", 0, 1)
+				if err != nil {
+					panic(err)
+				}
+				tr = t
+			} else {
+				tr = mercure.NewLocalTransport()
+			}
+			rp := map[string]any{"family": "overflow", "scenario": "many-subscribers", "transport": kind, "subscribers": n}
+			subs := make([]*mercure.LocalSubscriber, n)
+			removed := map[int]bool{}
+			for i := range subs {
+				subs[i] = mercure.NewLocalSubscriber("", zapNop(), tss)
+				subs[i].SetTopics([]string{"t"}, nil)
+				if err := tr.AddSubscriber(subs[i]); err != nil {
+					panic(err)
+				}
+			}
+			for i := 3; i < n; i += 97 {
+				_ = tr.RemoveSubscriber(subs[i])
+				removed[i] = true
+			}
+			_, listed, _ := tr.(mercure.TransportSubscribers).GetSubscribers()
+			if len(listed) != n-len(removed) {
+				r.Violate(h.Violation{Key: "C18:listed-subscribers-differ-from-connected", What: fmt.Sprintf("%s transport: %d subscribers registered, %d removed, GetSubscribers lists %d", kind, n, len(removed), len(listed)), Replay: rp})
+			}
+			if err := tr.Dispatch(&mercure.Update{Topics: []string{"t"}, Event: mercure.Event{ID: "x"}}); err != nil {
+				panic(err)
+			}
+			missed := 0
+			for i, s := range subs {
+				got := len(drain(s))
+				if (got == 1) == removed[i] {
+					missed++
+				}
+			}
+			if missed > 0 {
+				r.Violate(h.Violation{Key: "C05:update-not-handed-to-exactly-the-connected-matching-subscribers", What: fmt.Sprintf("%s transport, %d subscribers: %d of them were wrongly served (a connected one missed the update or a removed one got it)", kind, n, missed), Replay: rp})
+			}
+			_ = tr.Close()
+			var open []int
+			for i, s := range subs {
+				if !removed[i] && !mercure.VerifSubDisconnected(s) {
+					open = append(open, i)
+				}
+			}
+			if len(open) > 0 {
+				v := h.Violation{Key: "C15:registered-subscriber-not-ended-by-close", What: fmt.Sprintf("%s transport: %d of %d subscribers registered before Close still have an open stream after Close returned (positions %v)", kind, len(open), n, open[:min(len(open), 8)]), Replay: rp}
+				r.Violate(v)
+			}
+			os.RemoveAll(dir)
+			r.Evaluations += 3
+			r.Count("scenario:many-subscribers")
+		}
+	}
+}
+
 func genOverflowCase(rr *h.Rand, capacity int) hubCase {
 	cs := hubCase{ExpectAll: true, AllPublic: true, Cfg: hubCfg{PubAlg: "HS256", SubAlg: "HS256", Anonymous: true, Bolt: rr.Bool(), Subscriptions: rr.Chance(1, 3)}}
 	star := claimsJSON("publish", []string{"*"}, "")
@@ -735,10 +817,21 @@ func hubOracles(hr *hubRun, cs hubCase, o *gen.Oracle) []h.Violation {
 	// that was connected first and is still connected (cases without close / restart)
 	if cs.Cfg.Subscriptions && len(hr.conns) > 0 && !hr.conns[0].done.Load() {
 		quiet := true
+		stalled := map[int]bool{}
 		for _, op := range cs.Ops {
-			if op.Op == "close" || op.Op == "restart" || op.Op == "stall" {
+			if op.Op == "close" || op.Op == "restart" {
 				quiet = false
 			}
+			if op.Op == "stall" {
+				stalled[op.Label] = true
+			}
+			if op.Op == "unstall" {
+				delete(stalled, op.Label)
+			}
+		}
+		// a writer still stalled at the end (or the watcher's own) leaves events in flight: not evaluated
+		if len(stalled) > 0 {
+			quiet = false
 		}
 		w0 := subs[hr.conns[0].label]
 		if quiet && len(w0.sels) == 1 && w0.sels[0] == "*" && len(w0.claim) == 1 && w0.claim[0] == "*" {
